@@ -361,18 +361,25 @@ where StandardNormal: Distribution<F>, Exp1: Distribution<F>, Open01: Distributi
         }
         // InverseGaussian(mu, lambda), Michael-Schucany-Haas as documented: v ~ N(0,1), y = mu v^2,
         // x = mu + mu/(2 lambda) (y - sqrt(4 lambda y + y^2)); x with probability mu / (mu + x), else mu^2 / x
-        for (mu, l) in [(f(1.0), f(1.0)), (f(0.5), f(3.0)), (f(2.0), f(0.25)), (f(8.0), f(8.0)), (f(0.125), f(1.0))] {
+        for (mu, l) in [(f(1.0), f(1.0)), (f(0.5), f(3.0)), (f(2.0), f(0.25)), (f(8.0), f(8.0)), (f(0.125), f(1.0)), (f(1000.0), f(0.001)), (f(30.0), f(0.0625)), (f(0.001), f(1000.0))] {
             let Ok(d) = InverseGaussian::new(mu, l) else { continue };
             let (mut ra, mut rb) = (rng0.clone(), rng0.clone());
             let got = guarded(|| d.sample(&mut ra));
+            // the reference evaluates the smaller root in f64 and in the form mu / (sqrt(z) + sqrt(1 + z))^2, z = y / (4 lambda), which is
+            // the same number without the cancelling difference; a uniform within 2^-20 (relative) of the selection threshold is not judged
+            let mut edge = false;
             let refv = guarded(|| {
                 let v: F = StandardNormal.sample(&mut rb);
-                let y = mu * v * v;
-                let x = mu + mu / (f(2.0) * l) * (y - (f(4.0) * l * y + y * y).sqrt());
+                let (m64, l64, v64) = (mu.f64v(), l.f64v(), v.f64v());
+                let z = m64 * v64 * v64 / (4.0 * l64);
+                let t = z.sqrt() + (1.0 + z).sqrt();
+                let x = m64 / (t * t);
                 let u: F = StandardUniform.sample(&mut rb);
-                if u <= mu / (mu + x) { x } else { mu * mu / x }
+                let thr = m64 / (m64 + x);
+                if (u.f64v() - thr).abs() <= thr * 9.5367431640625e-7 { edge = true; }
+                if u.f64v() <= thr { F::of(x) } else { F::of(m64 * m64 / x) }
             });
-            push("InverseGaussian", vec![mu, l], got, ra.words(), refv, rb.words(), &tag, out);
+            if !edge { push("InverseGaussian", vec![mu, l], got, ra.words(), refv, rb.words(), &tag, out); }
             // root selection, measured: for this normal draw, the uniform words that return the first root x are a prefix of the
             // word range; their number T, the two roots and mu as fixed-point integers (floor(v 2^40), base-2^14 limbs)
             let nwords = ra.words();
